@@ -17,6 +17,27 @@ import (
 
 // familyOrException: does the chain contain target (mime, ext)? If not, did it
 // leave root -> text/plain -> target at a node of higher priority?
+// Priority is PINNED from tree.go at the verified commit (the properties' anchors): the
+// formats that may take precedence over text/plain at the root, and over each text
+// format among text/plain's children. A format that is merely *moved* in front of the
+// target in a changed tree is not an accepted exception.
+var pinnedBeforeTar = []string{"image/x-xpixmap", "application/x-7z-compressed", "application/zip", "application/pdf", "application/vnd.fdf", "application/x-ole-storage", "application/postscript", "image/vnd.adobe.photoshop", "application/pkcs7-signature", "application/ogg", "image/png", "image/jpeg", "image/jxl", "image/jp2", "image/jpx", "image/jpm", "image/jxs", "image/gif", "image/webp", "application/vnd.microsoft.portable-executable", "application/x-elf", "application/x-archive"}
+var pinnedTextOrder = []string{"text/html", "image/svg+xml", "text/xml", "text/x-php", "text/javascript", "text/x-lua", "text/x-perl", "text/x-python", "application/json", "application/x-ndjson", "text/rtf", "application/x-subrip", "text/x-tcl", "text/csv", "text/tab-separated-values", "text/vcard", "text/calendar", "application/warc", "text/vtt"}
+
+// pinnedPrecedes reports whether text child a has priority over text child b at the pinned commit.
+func pinnedPrecedes(a, b string) bool {
+	ia, ib := -1, -1
+	for i, n := range pinnedTextOrder {
+		if n == a {
+			ia = i
+		}
+		if n == b {
+			ib = i
+		}
+	}
+	return ia >= 0 && ib >= 0 && ia < ib
+}
+
 func familyOrException(t *lib.Tree, ch lib.Chain, mime, ext string) (string, string) {
 	if ch.HasLink(mime, ext) {
 		return "hit", ""
@@ -36,10 +57,10 @@ func familyOrException(t *lib.Tree, ch lib.Chain, mime, ext string) (string, str
 	if len(path) < 3 {
 		return "miss", "stopped at text/plain"
 	}
-	if t.ChildIndex(path[2]) < t.ChildIndex(target) {
+	if t.ChildIndex(path[2]) < t.ChildIndex(target) && pinnedPrecedes(t.Nodes[path[2]].MIME, mime) {
 		return "exception", t.Nodes[path[2]].MIME
 	}
-	return "miss", "a lower-priority text format (" + t.Nodes[path[2]].MIME + ") was reported"
+	return "miss", "a text format without priority over " + mime + " (" + t.Nodes[path[2]].MIME + ") was reported"
 }
 
 type c13Table struct {
@@ -262,7 +283,19 @@ func c13Run(c *fw.Ctx, b fw.Batch) {
 			rows, cols := 2+r.Intn(6), 2+r.Intn(5)
 			crlf, quoted, tnl := r.Intn(3) == 0, r.Intn(3) == 0, r.Intn(4) != 0
 			other := r.Intn(12) == 0
+			if r.Intn(10) == 0 { // larger tables
+				rows = 20 + r.Intn(60)
+			}
 			tb := c13MakeTable(r, delim, rows, cols, crlf, quoted, tnl, 0, other)
+			// UTF-8 byte-order mark in front (the usual "CSV UTF-8" export). Only when the first cell is
+			// unquoted: encoding/csv keeps the BOM as cell content, so BOM + quoted first cell is a
+			// different (unsupported) dialect that the statement does not cover.
+			if r.Intn(6) == 0 && len(tb.data) > 0 && tb.data[0] != '"' {
+				tb.data = append([]byte{0xEF, 0xBB, 0xBF}, tb.data...)
+				for k := range tb.lineEnds {
+					tb.lineEnds[k] += 3
+				}
+			}
 			from := tb.lineEnds[1]
 			if !tnl && rows == 2 {
 				from = len(tb.data) + 1 // second line unterminated: only whole mode is claimed
@@ -346,6 +379,9 @@ func c13Run(c *fw.Ctx, b fw.Batch) {
 				delim = '\t'
 			}
 			rows, cols := 3+r.Intn(5), 2+r.Intn(4)
+			if i%4 == 0 { // long tables: a ragged line far down must still be seen
+				rows = 18 + r.Intn(45)
+			}
 			crlf := r.Intn(3) == 0
 			// simple unquoted cells, no comments, no foreign delimiter
 			var lines []string
@@ -357,6 +393,9 @@ func c13Run(c *fw.Ctx, b fw.Batch) {
 				lines = append(lines, strings.Join(cells, string(delim)))
 			}
 			for dmg := 0; dmg < rows; dmg++ {
+				if rows > 12 && dmg > 3 && dmg < rows-3 && dmg%5 != i%5 {
+					continue
+				}
 				mod := append([]string{}, lines...)
 				cells := strings.Split(mod[dmg], string(delim))
 				more := r.Intn(2) == 0
@@ -381,6 +420,9 @@ func c13Run(c *fw.Ctx, b fw.Batch) {
 				from := maxInt(end, second)
 				lims := []uint32{0, uint32(len(d) + 1)}
 				for L := from; L <= len(d); L++ {
+					if len(d) > 300 && L > from+3 && L < len(d)-3 && L%11 != 0 {
+						continue
+					}
 					lims = append(lims, uint32(L))
 				}
 				nm := c13Names[delim]
@@ -466,7 +508,7 @@ func init() {
 	fw.Register(&fw.Prop{
 		ID:    "C13",
 		Level: "exploration",
-		Rule: "forward: rectangular CSV/TSV tables (2-6 columns, 2-7 rows, LF/CRLF, optional properly quoted cells containing the delimiter, with/without final newline, occasionally the other delimiter inside cells) and NDJSON streams (one generated JSON value per line, an object/array within the first two lines) detected at EVERY limit from just past the second line's newline to len, and whole; tables with interspersed '#' comment lines (the dialect the converse clause names: comment lines are not records) are expected to be detected from the second record line on. converse: single-column files (one field per line) must not be tables; tables of simple cells with exactly one complete line damaged (one field more/less) at every line index x every limit that keeps the damaged line complete; NDJSON streams and line soups (valid values, blank lines, 20 malformed line kinds) at every limit, judged by the reference recogniser per line. " +
+		Rule: "forward: rectangular CSV/TSV tables (2-6 columns, 2-7 rows and some of 20-80 rows, some with a UTF-8 byte-order mark in front, LF/CRLF, optional properly quoted cells containing the delimiter, with/without final newline, occasionally the other delimiter inside cells) and NDJSON streams (one generated JSON value per line, an object/array within the first two lines) detected at EVERY limit from just past the second line's newline to len, and whole; tables with interspersed '#' comment lines (the dialect the converse clause names: comment lines are not records) are expected to be detected from the second record line on. converse: single-column files (one field per line) must not be tables; tables of simple cells (3-7 rows, and 18-62 rows) with exactly one complete line damaged (one field more/less) at every line index x every limit that keeps the damaged line complete; NDJSON streams and line soups (valid values, blank lines, 20 malformed line kinds) at every limit, judged by the reference recogniser per line. " +
 			"non-trivial = a truncated detection with the cut strictly inside the file (forward), or an input containing a damaged/malformed line (converse); distinct = distinct (family, CRLF, quoting, final newline, position of the cut relative to line structure, delimiter) / (damaged line index, row count, more/less, columns) / (soup shape) tuples.",
 		Assumptions: []string{
 			"'complete line' means newline-terminated inside the examined header when the header was cut by the limit",
